@@ -745,6 +745,26 @@ def _run_trav(ctx, mode, args):
         got2 = _take(mon, lazy, cap, what)
         mon.check([c for c, _ in got2] == [c for c, _ in got] and all(a[1] is b[1] for a, b in zip(got, got2)),
                   f"{what}:reiteration", f"{what}: second traversal gave {[c for c, _ in got2]} after {[c for c, _ in got]}")
+        if p is None:
+            # active-range iteration of the projection: the projected elements inside the requested interval, or (no interval)
+            # inside the image of the source's active range -- for a source whose active range was narrowed, too
+            lo, hi = f.getActive()
+            if iv is not None:
+                alo, ahi = iv[0], iv[1]
+            elif hi > lo:
+                alo, ahi = min(fn(lo), fn(hi - 1)), max(fn(lo), fn(hi - 1)) + 1
+            else:
+                alo = ahi = None
+            if alo is not None:
+                src_in = [(fn(c), q) for c, q in base if lo <= c < hi]
+                exp_act = sorted((x for x in src_in if alo <= x[0] < ahi), key=lambda x: x[0])
+                if iv is not None:
+                    exp_act = [x for x in img]
+                got_act = _take(mon, lazy.iterActive(), cap, what + ":iterActive")
+                mon.count("project_active_traversals")
+                mon.check([c for c, _ in got_act] == [c for c, _ in exp_act] and all(a[1] is b[1] for a, b in zip(got_act, exp_act)),
+                          f"{what}:iterActive", f"{what}: active-range iteration of the projection of a fiber with active range {(lo, hi)} "
+                          f"gave {[c for c, _ in got_act]}, expected {[c for c, _ in exp_act]}")
     elif mode == "prune":
         pred = args["pred"]
         fn = PRUNE_FNS[pred]
